@@ -271,9 +271,15 @@ impl Display for Expr {
             if let Some(ref left) = self.left {
                 fmt.write_str(&left.to_string())?;
             }
+            if let Some(ref args) = self.args {
+                for arg in args {
+                    fmt.write_str(", ")?;
+                    fmt.write_str(&arg.to_string())?;
+                }
+            }
             fmt.write_char(')')?;
         } else if let Some(ref left) = self.left {
-            fmt.write_str(&left.to_string())?;
+            Self::fmt_operand(left, fmt)?;
         }
 
         if let Some(ref field) = self.field {
@@ -284,10 +290,42 @@ impl Display for Expr {
             fmt.write_str(val)?;
         }
 
+        if self.function.is_none() {
+            if let Some(ref op) = self.arithmetic_op {
+                fmt.write_str(match op {
+                    ArithmeticOp::Add => " + ",
+                    ArithmeticOp::Subtract => " - ",
+                    ArithmeticOp::Multiply => " * ",
+                    ArithmeticOp::Divide => " / ",
+                    ArithmeticOp::Modulo => " % ",
+                })?;
+            } else if let Some(ref op) = self.logical_op {
+                write!(fmt, " {:?} ", op)?;
+            } else if let Some(ref op) = self.op {
+                write!(fmt, " {:?} ", op)?;
+            }
+        }
+
         if let Some(ref right) = self.right {
-            fmt.write_str(&right.to_string())?;
+            Self::fmt_operand(right, fmt)?;
         }
 
         Ok(())
+    }
+}
+
+impl Expr {
+    /// Operands that are themselves binary expressions are bracketed, so that two different
+    /// expressions never share one textual form (it is used as a key for per-row values).
+    fn fmt_operand(operand: &Expr, fmt: &mut Formatter) -> fmt::Result {
+        use std::fmt::Write;
+
+        if operand.function.is_none() && operand.right.is_some() {
+            fmt.write_char('(')?;
+            fmt.write_str(&operand.to_string())?;
+            fmt.write_char(')')
+        } else {
+            fmt.write_str(&operand.to_string())
+        }
     }
 }
